@@ -33,6 +33,7 @@ static Val run_range(const Val &c)
         Val second = obs(copy);
         return (c.at(7).asInt() & 2) ? second : first;
     }
+    case 6: return obs(Range(QString::fromUtf8(c.at(1).asBytes()), c.at(2).asInt()));      // the string given as UTF-8 (digits of other scripts)
     case 5: {   // the same construction while other threads build ranges of their own (the class is a value class: reentrant)
         QString str = QString::fromLatin1(c.at(1).asBytes());
         qint64 size = c.at(2).asInt();
